@@ -7,7 +7,7 @@ import numpy as np
 from formak.exceptions import ModelConstructionError
 from matplotlib import pyplot as plt
 from numpy.typing import NDArray
-from sympy import Integer, Symbol, diff
+from sympy import Float, Integer, NumberSymbol, Symbol, diff
 from sympy.solvers.solveset import nonlinsolve
 
 
@@ -24,6 +24,21 @@ def evaluate_large_integers(expr):
     except AttributeError:
         return expr
     return expr.xreplace(large) if large else expr
+
+
+def evaluate_named_constants(expr):
+    """
+    Replace named constants (pi, E, GoldenRatio, ...) by their float value.
+
+    lambdify prints them by name (pi, e, golden_ratio), so a model symbol with
+    the same spelling - a state called pi, an energy called E - shadows the
+    constant inside the generated function: E*exp(1) was evaluated as E*E.
+    """
+    try:
+        named = {atom: Float(atom, 17) for atom in expr.atoms(NumberSymbol)}
+    except AttributeError:
+        return expr
+    return expr.xreplace(named) if named else expr
 
 
 class UiModelBase:
